@@ -80,6 +80,35 @@ def x_ledger(o, cx):
     o.stats["ledger"] = dict(ops=n, predicate="alloc/free pairing, no block live after a failing call, MEMORY status on allocation failure, evaluated on the implementation's call log")
 
 
+# ------------------------------------------------------------------ C16
+def x_freewipe(o, cx):
+    """every block the implementation hands to the injected free was wiped in full through the injected
+    memzero since it was last written, and the wipe is the event right before the free"""
+    n = 0
+    for (label, lines, rr) in o.runs:
+        for i, case in enumerate(lines):
+            res, ev = _events(rr.c[i])
+            if res is None:
+                continue
+            bad = None
+            for j, e in enumerate(ev):
+                f = e.split(":")
+                if f[0] != "free" or f[2] == "unknown":
+                    continue
+                n += 1
+                if len(f) > 3 and f[3] == "dirty":
+                    bad = "block %s reached the injected free with non-zero contents (not wiped)" % f[2]
+                prev = ev[j - 1].split(":") if j > 0 else []
+                if not (prev and prev[0].startswith("wipe") and prev[1] == "seed" + f[2]):
+                    bad = bad or "free of block %s is not immediately preceded by a wipe of that seed" % f[2]
+            if bad:
+                o.direct.append(dict(kind="freewipe", suite=label, seq=core.enclosing_sequence(lines, i), what=bad,
+                                     impl=rr.c[i][:1500], expected="wipe of the whole block, then free"))
+                if len(o.direct) > 20:
+                    return
+    o.stats["freewipe"] = dict(frees=n, predicate="each free is preceded by a wipe of that block and the block is all-zero when the injected free receives it; evaluated on the implementation's call log")
+
+
 # ------------------------------------------------------------------ C18
 def x_libc(o, cx):
     """every call goes through the table injected last; libc exactly for NULL entries"""
